@@ -246,11 +246,11 @@ PROPS = {
         "rule": 'correspondence: ExpandSpec on generated multi-document reference graphs (1-5 documents in the same/sub/parent directories and an http host; local, sibling, ./ ../, root-relative and absolute refs; nested-pointer and whole-document targets; escaped names; refs at every sub-schema keyword; parameters/responses/path items by $ref; cycles of every small topology; all option combinations) + a bounded-exhaustive sample of graphs over <=3 definitions x <=2 documents; oracle: an independent dereferencer (harness/refgraph.go: RFC 3986 resolution against the containing document, JSON pointer evaluation) unfolds every schema, parameter, response and path item of input and output to depth 6 and compares them position by position, with AbsoluteCircularRef on and off; non-trivial = graph with at least one $ref whose expansion succeeds',
         "trusted_base": COMMON_TB + ["Expand/Expand.v: hand model of expander.go / schema_loader.go / resolver.go on JSON trees (base-path threading, parent stack, memo of circular refs, resolver roots, deref chains, rebasing, SkipSchemas/ContinueOnError/AbsoluteCircularRef, cache and loader log); abstractions: sub-schemas visited in JSON member order, `#/` refs into the live root read the original root (outputs on cyclic graphs compared through unfoldings)",
                                      "Expand/ExpandSim.v: the definition of meaning (sem_target / chases / sim) is part of the statement; it reads a target through the typed decoding (norm ... Schema) as resolveRef does",
-                                     "correspondence scope: graphs without multi-hop parameter/response/path-item chains, imported-circular schemas, schema ids and prefix-sibling documents (the areas of the open findings F7-F10) are compared; the others are judged by the oracle only",
+                                     "correspondence scope: every generated graph except those with schema ids and prefix-sibling documents (the areas of the open findings F9, F10, F10b), which are judged by the oracle only; multi-hop parameter/response/path-item chains and imported circular schemas are compared since the repairs of F7 and F8",
                                      "harness/refgraph.go: the oracle's own dereferencer (independent of the library's resolver)",
                                      "Codec/Codec.v (typed decoding of every resolved target) and Base/Url.v (normalizeURI, rebase)"],
         "level_text": 'Coq theorems (Props/C02.v over Expand/ExpandSim.v, ExpandSimCheck.v), unbounded: meaning is defined relationally (chases: "$ref replaces its holder", resolved against the containing document; sim n: level-by-level comparison; bisimilar = all n). Proved for every document store, state (cache and memo, i.e. every history of earlier expansions and every visiting order), parent stack, fuel, SkipSchemas and AbsoluteCircularRef setting: a successful schema walk returns a value that, read at the root location, is bisimilar to its input read in its own document; resolveRef computes the document-relative target whatever root the resolver holds (resolver/base coherence is an invariant maintained by transitiveResolver); the graph hypotheses are decided by a verified checker (check_nodes_sound) and discharged by computation on a concrete cross-document cyclic graph.',
-        "level_note": 'Partial: (1) the theorem covers the schema walk (expandSchema/expandSchemaRef: definitions and every schema below parameters/responses); the $ref chains of parameters, responses and path items (deref) are outside it — on the faithful model the statement is false there (Example C02_refuted_on_parameter_chains_F7, finding F7) — and rest on correspondence + oracle; (2) hypotheses carve out schema ids (F10/F10b), string-prefix sibling documents (F9) and ContinueOnError; (3) two URL-algebra facts (a kept-resolver reference stays in its document; the rendered text of a kept reference resolves back to the same target) are decided per graph by the checker, not proved for all URLs.',
+        "level_note": 'Partial: (1) the theorem covers the schema walk (expandSchema/expandSchemaRef: definitions and every schema below parameters/responses); the $ref chains of parameters, responses and path items (deref) are outside it and rest on correspondence + oracle (this is where the defects F7 and F8 were found; both are repaired and the model follows the repaired code); (2) hypotheses carve out schema ids (F10/F10b), string-prefix sibling documents (F9) and ContinueOnError; (3) two URL-algebra facts (a kept-resolver reference stays in its document; the rendered text of a kept reference resolves back to the same target) are decided per graph by the checker, not proved for all URLs.',
         "technique": "Coq proof (bisimulation by induction on fuel and tree size) about a hand-written executable model of the expander + differential run (exact on acyclic graphs, unfoldings on cyclic ones) + property oracle with an independent dereferencer on the implementation",
         "assumptions": ["loader is a function of the URL during one call", "the root document is served at its own location with the content the caller passes"],
     },
@@ -259,7 +259,7 @@ PROPS = {
         "n": {"quick": 120, "thorough": 1500}, "oracle_n": {"quick": 150, "thorough": 3000},
         "rule": 'correspondence: ExpandSpec on generated multi-document reference graphs (1-5 documents in the same/sub/parent directories and an http host; local, sibling, ./ ../, root-relative and absolute refs; nested-pointer and whole-document targets; escaped names; refs at every sub-schema keyword; parameters/responses/path items by $ref; cycles of every small topology; fault injection; all option combinations) + a bounded-exhaustive sample of graphs over <=3 definitions x <=2 documents; oracle: every remaining $ref resolves from the root location to a node on a cycle of the input graph (SCCs of canonical refs); acyclic => no $ref and byte-identical reruns; rendering of kept refs; non-trivial = graph with at least one $ref',
         "trusted_base": COMMON_TB + ["Expand/Expand.v: hand model of expander.go / schema_loader.go / resolver.go on JSON trees (base-path threading, parent stack, memo of circular refs, resolver roots, deref chains, rebasing, SkipSchemas/ContinueOnError/AbsoluteCircularRef, cache and loader log); abstractions: sub-schemas visited in JSON member order, `#/` refs into the live root read the original root (outputs on cyclic graphs compared through unfoldings)",
-                                     "correspondence scope: graphs without multi-hop parameter/response/path-item chains, imported-circular schemas, schema ids and prefix-sibling documents (the areas of the open findings F7-F10) are compared; the others are judged by the oracle only",
+                                     "correspondence scope: every generated graph except those with schema ids and prefix-sibling documents (the areas of the open findings F9, F10, F10b), which are judged by the oracle only; multi-hop parameter/response/path-item chains and imported circular schemas are compared since the repairs of F7 and F8",
                                      "Codec/Codec.v (typed decoding of every resolved target) and Base/Url.v (normalizeURI, rebase)"],
         "level_text": 'Coq theorems (Props/C03.v over Expand/ExpandCycle.v), unbounded: GRAPH LEVEL — for every store, state, stack, fuel and AbsoluteCircularRef setting (strict, full mode), every `$ref` a successful schema expansion leaves behind, at any depth, is the rendering of a canonical reference that lies on a cycle of the input reference graph (invariants: every reference on the parent stack has a holder whose target reaches the current position; the memo only holds references on cycles); an acyclic graph therefore ends `$ref`-free; acyclicity is decided by a rank every edge decreases; graph hypotheses decided by the verified checker and discharged by computation on a cyclic and an acyclic two-document graph. PER REFERENCE — kept exactly when on the stack or in the memo; the memo only receives stack members; rendering of a kept reference; a non-circular reference is always followed.',
         "level_note": 'Partial: the graph-level theorems cover the schema walk (definitions and every schema below parameters/responses) under the well-formedness hypotheses of C02 (no ids, no prefix-sibling documents, strict mode); "resolves from the root location" for the rendered text is the per-graph URL check of C02 (G_render), not proved for all URLs; parameter/response/path-item chains and determinism of reruns rest on the oracle.',
@@ -271,7 +271,7 @@ PROPS = {
         "n": {"quick": 120, "thorough": 1500}, "oracle_n": {"quick": 150, "thorough": 3000},
         "rule": 'correspondence: ExpandSpec on generated multi-document reference graphs (1-5 documents in the same/sub/parent directories and an http host; local, sibling, ./ ../, root-relative and absolute refs; nested-pointer and whole-document targets; escaped names; refs at every sub-schema keyword; parameters/responses/path items by $ref; cycles of every small topology; fault injection; all option combinations) + a bounded-exhaustive sample of graphs over <=3 definitions x <=2 documents; oracle: every entry point x the four SkipSchemas/ContinueOnError combinations returns within a time limit without panic, in a killable worker for graphs with ids; non-trivial: all',
         "trusted_base": COMMON_TB + ["Expand/Expand.v: hand model of expander.go / schema_loader.go / resolver.go on JSON trees (base-path threading, parent stack, memo of circular refs, resolver roots, deref chains, rebasing, SkipSchemas/ContinueOnError/AbsoluteCircularRef, cache and loader log); abstractions: sub-schemas visited in JSON member order, `#/` refs into the live root read the original root (outputs on cyclic graphs compared through unfoldings)",
-                                     "correspondence scope: graphs without multi-hop parameter/response/path-item chains, imported-circular schemas, schema ids and prefix-sibling documents (the areas of the open findings F7-F10) are compared; the others are judged by the oracle only",
+                                     "correspondence scope: every generated graph except those with schema ids and prefix-sibling documents (the areas of the open findings F9, F10, F10b), which are judged by the oracle only; multi-hop parameter/response/path-item chains and imported circular schemas are compared since the repairs of F7 and F8",
                                      "Codec/Codec.v (typed decoding of every resolved target) and Base/Url.v (normalizeURI, rebase)"],
         "level_text": 'Coq theorems (Props/C04.v), unbounded: the tree walk is a structural recursion (guard-checked: it cannot diverge or get stuck); running out of fuel d requires d pairwise distinct canonical references nested in one another, all distinct from those on the stack (pigeonhole on the parent stack); hence fuel |U|+1 is never exhausted when the canonical references lie in a finite set U. For every store, loader, option setting, schema and state.',
         "level_note": 'Partial for the runtime half: stack exhaustion and panics are behaviour of the Go runtime that a functional model cannot exhibit; they are covered by the oracle (watchdog worker). F10 (relative-directory id on a cycle: U is infinite) is an open finding.',
@@ -283,7 +283,7 @@ PROPS = {
         "n": {"quick": 120, "thorough": 1500}, "oracle_n": {"quick": 150, "thorough": 3000},
         "rule": 'correspondence: ExpandSpec on generated multi-document reference graphs (1-5 documents in the same/sub/parent directories and an http host; local, sibling, ./ ../, root-relative and absolute refs; nested-pointer and whole-document targets; escaped names; refs at every sub-schema keyword; parameters/responses/path items by $ref; cycles of every small topology; fault injection; all option combinations) + a bounded-exhaustive sample of graphs over <=3 definitions x <=2 documents; oracle: for every graph with injected faults (missing documents, dangling pointers, ill-typed targets) strict mode errs iff a reference that has to be followed is unresolvable; continue mode: no error, unresolvable schema refs verbatim, the rest equal to the strict expansion of the repaired graph',
         "trusted_base": COMMON_TB + ["Expand/Expand.v: hand model of expander.go / schema_loader.go / resolver.go on JSON trees (base-path threading, parent stack, memo of circular refs, resolver roots, deref chains, rebasing, SkipSchemas/ContinueOnError/AbsoluteCircularRef, cache and loader log); abstractions: sub-schemas visited in JSON member order, `#/` refs into the live root read the original root (outputs on cyclic graphs compared through unfoldings)",
-                                     "correspondence scope: graphs without multi-hop parameter/response/path-item chains, imported-circular schemas, schema ids and prefix-sibling documents (the areas of the open findings F7-F10) are compared; the others are judged by the oracle only",
+                                     "correspondence scope: every generated graph except those with schema ids and prefix-sibling documents (the areas of the open findings F9, F10, F10b), which are judged by the oracle only; multi-hop parameter/response/path-item chains and imported circular schemas are compared since the repairs of F7 and F8",
                                      "Codec/Codec.v (typed decoding of every resolved target) and Base/Url.v (normalizeURI, rebase)"],
         "level_text": 'Coq theorems (Props/C08.v): strict mode turns an unresolvable schema reference into an error; continue mode leaves it verbatim (missing document/pointer) and returns no error; errors of the traversal always come from a child / a failed follow / a failed resolution / an unnormalisable URL (never invented), and a failing child stops the fold (never swallowed); F22 (ill-typed target emptied in continue mode) as a theorem about the transcribed behaviour.',
         "level_note": 'Partial: the iff over whole documents (must_follow set) is checked by the oracle; the theorems are per reference and per fold.',
@@ -295,7 +295,7 @@ PROPS = {
         "n": {"quick": 120, "thorough": 1500}, "oracle_n": {"quick": 150, "thorough": 3000},
         "rule": 'correspondence: ExpandSpec on generated multi-document reference graphs (1-5 documents in the same/sub/parent directories and an http host; local, sibling, ./ ../, root-relative and absolute refs; nested-pointer and whole-document targets; escaped names; refs at every sub-schema keyword; parameters/responses/path items by $ref; cycles of every small topology; fault injection; all option combinations) + a bounded-exhaustive sample of graphs over <=3 definitions x <=2 documents; oracle: SkipSchemas: no parameter/response/path-item position holds a $ref, definitions equal, every schema $ref designates from the root the same canonical target as before, skip-then-full equals direct full (unfoldings)',
         "trusted_base": COMMON_TB + ["Expand/Expand.v: hand model of expander.go / schema_loader.go / resolver.go on JSON trees (base-path threading, parent stack, memo of circular refs, resolver roots, deref chains, rebasing, SkipSchemas/ContinueOnError/AbsoluteCircularRef, cache and loader log); abstractions: sub-schemas visited in JSON member order, `#/` refs into the live root read the original root (outputs on cyclic graphs compared through unfoldings)",
-                                     "correspondence scope: graphs without multi-hop parameter/response/path-item chains, imported-circular schemas, schema ids and prefix-sibling documents (the areas of the open findings F7-F10) are compared; the others are judged by the oracle only",
+                                     "correspondence scope: every generated graph except those with schema ids and prefix-sibling documents (the areas of the open findings F9, F10, F10b), which are judged by the oracle only; multi-hop parameter/response/path-item chains and imported circular schemas are compared since the repairs of F7 and F8",
                                      "Codec/Codec.v (typed decoding of every resolved target) and Base/Url.v (normalizeURI, rebase)"],
         "level_text": 'Coq theorems (Props/C09.v): with SkipSchemas a schema holding a $ref is finished at once — nothing resolved, followed or loaded, state untouched, only the text rebased to the root-relative rendering of its canonical target; the definitions section comes out exactly as it went in; no fuel is needed for schema refs.',
         "level_note": 'Partial: that the rebased text designates the same target (URL algebra of rebase; fails for prefix-sibling documents, F9) and the skip-then-full equality are checked by the oracle.',
@@ -308,7 +308,7 @@ PROPS = {
         "n": {"quick": 120, "thorough": 1500}, "oracle_n": {"quick": 100, "thorough": 2000},
         "rule": "correspondence: ExpandSpec on generated multi-document reference graphs (1-5 documents in the same/sub/parent directories and an http host; local, sibling, ./ ../, root-relative and absolute refs; nested-pointer and whole-document targets; escaped names; refs at every sub-schema keyword; parameters/responses/path items by $ref; cycles of every small topology; fault injection; all option combinations) + a bounded-exhaustive sample of graphs over <=3 definitions x <=2 documents; oracle: every definition/parameter/response of every root through each entry point (typed root, generic root, nil root + base location): the result's unfolding equals the element's unfolding in the root; root and caller options serialised before and after are unchanged",
         "trusted_base": COMMON_TB + ["Expand/Expand.v: hand model of expander.go / schema_loader.go / resolver.go on JSON trees (base-path threading, parent stack, memo of circular refs, resolver roots, deref chains, rebasing, SkipSchemas/ContinueOnError/AbsoluteCircularRef, cache and loader log); abstractions: sub-schemas visited in JSON member order, `#/` refs into the live root read the original root (outputs on cyclic graphs compared through unfoldings)",
-                                     "correspondence scope: graphs without multi-hop parameter/response/path-item chains, imported-circular schemas, schema ids and prefix-sibling documents (the areas of the open findings F7-F10) are compared; the others are judged by the oracle only",
+                                     "correspondence scope: every generated graph except those with schema ids and prefix-sibling documents (the areas of the open findings F9, F10, F10b), which are judged by the oracle only; multi-hop parameter/response/path-item chains and imported circular schemas are compared since the repairs of F7 and F8",
                                      "Codec/Codec.v (typed decoding of every resolved target) and Base/Url.v (normalizeURI, rebase)"],
         "level_text": 'Coq theorems (Props/C10.v): the entry points are set-up code around the same core: they terminate under the same pigeonhole bound, read `#/` references in the supplied root (cached under the pseudo location), and keep the cache discipline. Non-modification of root and options cannot be exhibited by a functional model and is checked on the implementation.',
         "level_note": 'Partial (aliasing): root/options mutation is a runtime property (oracle: before/after serialisation).',
@@ -321,7 +321,7 @@ PROPS = {
         "n": {"quick": 120, "thorough": 1500}, "oracle_n": {"quick": 150, "thorough": 3000},
         "rule": 'correspondence: ExpandSpec on generated multi-document reference graphs (1-5 documents in the same/sub/parent directories and an http host; local, sibling, ./ ../, root-relative and absolute refs; nested-pointer and whole-document targets; escaped names; refs at every sub-schema keyword; parameters/responses/path items by $ref; cycles of every small topology; fault injection; all option combinations) + a bounded-exhaustive sample of graphs over <=3 definitions x <=2 documents; oracle: nil / fresh / pre-loaded (every subset) / reused caches give identical outputs; loader log without duplicates; pre-loaded documents never requested',
         "trusted_base": COMMON_TB + ["Expand/Expand.v: hand model of expander.go / schema_loader.go / resolver.go on JSON trees (base-path threading, parent stack, memo of circular refs, resolver roots, deref chains, rebasing, SkipSchemas/ContinueOnError/AbsoluteCircularRef, cache and loader log); abstractions: sub-schemas visited in JSON member order, `#/` refs into the live root read the original root (outputs on cyclic graphs compared through unfoldings)",
-                                     "correspondence scope: graphs without multi-hop parameter/response/path-item chains, imported-circular schemas, schema ids and prefix-sibling documents (the areas of the open findings F7-F10) are compared; the others are judged by the oracle only",
+                                     "correspondence scope: every generated graph except those with schema ids and prefix-sibling documents (the areas of the open findings F9, F10, F10b), which are judged by the oracle only; multi-hop parameter/response/path-item chains and imported circular schemas are compared since the repairs of F7 and F8",
                                      "Codec/Codec.v (typed decoding of every resolved target) and Base/Url.v (normalizeURI, rebase)"],
         "level_text": 'Coq theorem (Props/C18.v), unbounded: at every point of an expansion (also at an error), for every supplied cache: each document the loader served was requested exactly once, none of them was in the supplied cache, all are now cached, nothing was evicted — an invariant carried through the whole traversal by induction on fuel and tree size.',
         "level_note": 'Partial: transparency of results w.r.t. the cache contents (same output with any consistent cache) is checked by the oracle; refused requests may be repeated (not cached, as in the code).',
